@@ -6,8 +6,10 @@ package main
 import (
 	"bytes"
 	"encoding/hex"
+	"encoding/json"
 	"fmt"
 	"hash/crc32"
+	"os"
 	"sort"
 
 	"github.com/blinklabs-io/gouroboros/cbor"
@@ -44,7 +46,9 @@ type seed struct {
 type decoder struct {
 	name    string
 	fn      func([]byte) error
-	cheap   bool // gets the length-3 sweep in the thorough tier
+	cheap   bool // small inputs, fast
+	sweep3  bool // gets the all-3-byte-strings sweep in the thorough tier
+	heavy   bool // variant of another decoder: large seeds only in the thorough tier
 	notCbor bool // seeds are not CBOR (address strings / raw Shelley address bytes)
 	seeds   []seed
 	post    func([]byte) []byte // optional structure-aware fix-up applied to emb/* variants (Byron CRC)
@@ -87,10 +91,43 @@ type eraFix struct {
 
 var fixturesCache []*eraFix
 
+type eraFixJSON struct {
+	Name                            string
+	BlkType, TxType                 uint
+	Block, Big, Header              []byte
+	Txs, Bodies, Outs, Aux, Addrs   [][]byte
+}
+
+// fixtures cuts the seeds out of the repository's block fixtures. The supervisor does the
+// work once and passes the result to the workers through a file (C02_FIXTURES).
 func fixtures() []*eraFix {
 	if fixturesCache != nil {
 		return fixturesCache
 	}
+	cachePath := os.Getenv("C02_FIXTURES")
+	if cachePath != "" {
+		if b, err := os.ReadFile(cachePath); err == nil {
+			var js []eraFixJSON
+			if json.Unmarshal(b, &js) == nil && len(js) > 0 {
+				for _, j := range js {
+					fixturesCache = append(fixturesCache, &eraFix{name: j.Name, blkType: j.BlkType, txType: j.TxType, block: j.Block, big: j.Big,
+						header: j.Header, txs: j.Txs, bodies: j.Bodies, outs: j.Outs, aux: j.Aux, addrs: j.Addrs})
+				}
+				return fixturesCache
+			}
+		}
+	}
+	defer func() {
+		if cachePath != "" && os.Getenv("C02_FIXTURES_WRITE") == "1" {
+			var js []eraFixJSON
+			for _, e := range fixturesCache {
+				js = append(js, eraFixJSON{e.name, e.blkType, e.txType, e.block, e.big, e.header, e.txs, e.bodies, e.outs, e.aux, e.addrs})
+			}
+			if b, err := json.Marshal(js); err == nil {
+				_ = os.WriteFile(cachePath, b, 0o644)
+			}
+		}
+	}()
 	byName := map[string][]byte{}
 	for _, f := range space.Blocks(true) {
 		byName[f.Name] = f.Cbor
@@ -591,7 +628,7 @@ func allDecoders() []*decoder {
 			_, err := ledger.NewBlockFromCbor(e.blkType, b)
 			return err
 		}})
-		add(&decoder{name: "ledger.NewBlockFromCbor(skip-body-hash):" + e.name, seeds: bs, fn: func(b []byte) error {
+		add(&decoder{name: "ledger.NewBlockFromCbor(skip-body-hash):" + e.name, heavy: true, seeds: bs, fn: func(b []byte) error {
 			_, err := ledger.NewBlockFromCbor(e.blkType, b, lcommon.VerifyConfig{SkipBodyHashValidation: true})
 			return err
 		}})
@@ -599,7 +636,7 @@ func allDecoders() []*decoder {
 		if e.blkType == 0 {
 			obs = []seed{{"x-" + bs[0].name, bs[0].b}} // the offset extractor has no EBB layout
 		}
-		add(&decoder{name: "ledger.NewBlockFromCborWithOffsets:" + e.name, seeds: obs, fn: func(b []byte) error {
+		add(&decoder{name: "ledger.NewBlockFromCborWithOffsets:" + e.name, heavy: true, seeds: obs, fn: func(b []byte) error {
 			_, err := ledger.NewBlockFromCborWithOffsets(e.blkType, b, lcommon.VerifyConfig{SkipBodyHashValidation: true})
 			return err
 		}})
@@ -989,6 +1026,17 @@ func allDecoders() []*decoder {
 		_ = cbor.DumpCborStructure(v, "", 300)
 		return nil
 	}})
+	sweep := map[string]bool{
+		"cbor.Decode(*cbor.Value)": true, "cbor.Decode(*cbor.LazyValue)+Decode": true, "cbor.Decode(*any)": true,
+		"cbor.ParseDiagnostic+Format": true, "cbor.DecodeIdFromList": true, "cbor.ListLength": true, "cbor.StreamDecoder": true,
+		"cbor.Decode(*pcommon.Point)": true, "cbor.Decode(*pcommon.Tip)": true, "protocol.NewVersionDataNtN13andUpFromCbor": true,
+		"lcommon.NewAddressFromBytes": true, "lcommon.NewAddress(string)": true, "ledger.NewTransactionOutputFromCbor": true,
+		"lcommon.DecodeMetadatumRaw": true, "cbor.Decode(*lcommon.LeiosEndorserBlock)": true, "chainsync.NewMsgFromCborNtN:2": true,
+		"handshake.NewMsgFromCbor:0": true, "cbor.Decode(*peersharing.PeerAddress)": true,
+	}
+	for _, d := range ds {
+		d.sweep3 = sweep[d.name]
+	}
 	sort.SliceStable(ds, func(i, j int) bool { return ds[i].name < ds[j].name })
 	// de-duplicate seeds by content within a decoder
 	for _, d := range ds {
